@@ -169,7 +169,20 @@ def case_line(outdir, cid, fname="cases.txt"):
     return ""
 
 
-def verdict(v, st, prop, res, known_match=None, max_report=3, replay_file="cases.txt"):
+def previous_case_line(outdir, cid, fname="cases.txt"):
+    """the case line just before the one with this id (engines that carry state from one call to the next need it)"""
+    prev = ""
+    p = os.path.join(outdir, fname)
+    if os.path.exists(p):
+        with open(p) as f:
+            for c in f:
+                if c.split(" ", 1)[0] == cid:
+                    return prev
+                prev = c.rstrip("\n")
+    return ""
+
+
+def verdict(v, st, prop, res, known_match=None, max_report=3, replay_file="cases.txt", with_previous=False):
     """spec failures -> VIOLATION with replay (or KNOWN-FINDING); else broken proof/correspondence -> no-failing-input-found."""
     reported = 0
     for tag, case, why in res.get("died", [])[:max_report]:
@@ -179,6 +192,10 @@ def verdict(v, st, prop, res, known_match=None, max_report=3, replay_file="cases
     for tag, line, outdir in res["spec_fail"]:
         cid = line.split()[0]
         case = case_line(outdir, cid, replay_file)
+        if with_previous:
+            pc = previous_case_line(outdir, cid, replay_file)
+            if pc:
+                case = pc + "\n" + case
         k = None
         if known_match:
             try:
